@@ -227,6 +227,13 @@ func NewBlockResultsMeta(results *consensus.BlockResults) (*BlockResultsMeta, er
 	if err := cbor.Unmarshal(results.Meta, &meta); err != nil {
 		return nil, fmt.Errorf("malformed block results metadata: %w", err)
 	}
+	// Results may come from an untrusted source and are later dereferenced
+	// (e.g. when computing the results hash), so make sure none is missing.
+	for _, rs := range meta.TxsResults {
+		if rs == nil {
+			return nil, fmt.Errorf("malformed block results metadata: missing transaction result")
+		}
+	}
 
 	return &meta, nil
 }
